@@ -44,7 +44,8 @@ class ReadBase {
   protected:
     static void ReplaceThis(ReadBase *with, ReadCompressed &thunk);
 
-    ReadBase *Current(ReadCompressed &thunk);
+    // Static because StreamCompressed::Read calls it after ReplaceThis deleted the caller.
+    static ReadBase *Current(ReadCompressed &thunk);
 
     static uint64_t &ReadCount(ReadCompressed &thunk);
 };
